@@ -30,7 +30,8 @@ SITES = ['start',
          'spsc.pop.head_load', 'spsc.pop.tail_load', 'spsc.pop.data_read', 'spsc.pop.head_store',
          'spsc.pushb.tail_load', 'spsc.pushb.head_load', 'spsc.pushb.data_write', 'spsc.pushb.tail_store',
          'spsc.popb.head_load', 'spsc.popb.tail_load', 'spsc.popb.data_read', 'spsc.popb.head_store',
-         'spsc.size.head_load', 'spsc.size.tail_load', 'spsc.empty.loads', 'spsc.full.loads']
+         'spsc.size.head_load', 'spsc.size.tail_load', 'spsc.empty.loads', 'spsc.full.loads',
+         'spsc.pop.data_destroy', 'spsc.popb.data_destroy']
 TAGS = {'push': 1, 'pushfail': 2, 'pop': 3, 'popfail': 4, 'pushb': 5, 'popb': 6, 'size': 7, 'empty': 8, 'full': 9}
 CONFIGS = [(1, 0), (1, 1), (2, 0), (2, 1), (3, 0), (3, 1), (4, 0), (4, 1), (5, 0), (6, 0), (7, 1), (8, 0), (15, 0), (16, 1)]
 BUDGET = 100
@@ -86,6 +87,28 @@ def gen_case(r):
     return {'cap': cap, 'rnd': rnd, 'progs': [p0, p1], 'sched': gen_sched(r, BUDGET)}
 
 
+def probes():
+    """deterministic family: ring FULL, the consumer pops with each overload / batch, the producer spins on a push variant.
+    The producer runs r steps immediately after EVERY consumer step (lead = 0), or the consumer first runs alone up to and
+    including its tail load (lead = 3) and from then on the producer runs r >= 3 steps after every consumer step (a complete
+    try_emplace is 4 steps)."""
+    out = []
+    for cap, rnd in [(1, 0), (2, 0), (3, 0), (3, 1)]:
+        full = 3 if cap == 3 else cap
+        for ov in [('O',), ('R',), ('I',), ('Q', 1), ('Q', 2)]:
+            for spin, plans in (('E', ((0, 1), (0, 2), (3, 3), (3, 4), (3, 5))), ('P', ((3, 4),)), ('C', ((3, 4),)), ('B', ((3, 4),))):
+                for lead, r in plans:
+                    tags = iter(range(1, 100))
+                    prod = [('E', next(tags)) for _ in range(full)]
+                    prod += [(spin, next(tags)) if spin != 'B' else ('B', [next(tags)]) for _ in range(14)]
+                    cons = [ov, ('R',)]
+                    sched = [0] * (1 + 4 * full) + [1] * lead
+                    while len(sched) < BUDGET:
+                        sched += [1] + [0] * r
+                    out.append({'cap': cap, 'rnd': rnd, 'progs': [prod, cons], 'sched': sched[:BUDGET]})
+    return out
+
+
 def line_of(c):
     return '%d %d %d ; %s ; S %s' % (c['cap'], c['rnd'], BUDGET, ' ; '.join(' '.join(op_txt(o) for o in p) for p in c['progs']),
                                      ' '.join(map(str, c['sched'])))
@@ -120,8 +143,10 @@ def run(ctx):
         {'cap': 2, 'rnd': 0, 'progs': [[('B', [1, 2, 3]), ('P', 4), ('B', [5, 6]), ('F',)], [('Q', 3), ('I',), ('Q', 2), ('Y',)]], 'sched': [0] * 10 + [1] * 9 + [0] * 10 + [1] * 71},
         {'cap': 3, 'rnd': 1, 'progs': [[('P', 1), ('C', 2), ('E', 3), ('P', 4), ('Z',)], [('O',), ('Z',), ('Q', 2), ('O',)]], 'sched': [0] * 17 + [1] * 83},
     ]
-    n = 200 if ctx.quick else 3000
-    cases = fixed + [gen_case(r) for _ in range(n)]
+    n = 110 if ctx.quick else 3000
+    pr = probes()
+    ctx.cov['probe_cases_full_ring_producer_waiting'] = len(pr)
+    cases = fixed + pr + [gen_case(r) for _ in range(n)]
     outs = ls_common.run_cases(exe, [line_of(c) for c in cases])
     ctx.phase('run')
     terms, kept = [], []
@@ -140,7 +165,7 @@ def run(ctx):
     ctx.cov['distinct_nontrivial'] += len(distinct)
     ctx.cov['rule'] = ('random producer/consumer scripts (1-6 ops each: single/batch push and pop in all API variants, size/empty/full) x 14 (Capacity, RoundUpToPowerOfTwo) configurations '
                        '(kBufferSize 2..17) x random or bursty schedules (100 decisions), one fork per case under vsched; non-trivial = some operation reached its full/empty test; '
-                       'distinct = distinct (trace, results, final state) strings')
+                       'distinct = distinct (trace, results, final state) strings; plus the deterministic full-ring probe family (each pop overload / batch, producer spinning on each push variant, producer scheduled after every consumer step)')
     verdicts = ls_common.judge_parallel(ctx, 'From DV Require Import Base.Sched Model.SpscModel Model.C35Check.', 'judge_spsc', terms, shard_size=45)
     if verdicts is None:
         ctx.broken.append('correspondence L(C35): the model no longer evaluates')
